@@ -34,6 +34,13 @@ HERE = os.path.dirname(os.path.abspath(__file__))
 def run(tier, rep):
     common.build()
     sc = common.scratch("c01")
+    try:
+        _run(tier, rep, sc)
+    finally:
+        shutil.rmtree(sc, ignore_errors=True)
+
+
+def _run(tier, rep, sc):
     res = common.run_tlc("Order", "Order", workers=1, coverage=False, timeout=900)
     if res.violation:
         rep.violation("model:Order:" + res.violation, "Order violates " + res.violation, {})
